@@ -40,6 +40,10 @@ type Op struct {
 	Banned bool   `json:"banned,omitempty"`
 	OReas  uint8  `json:"oreason,omitempty"`
 	OExp   int64  `json:"oexp,omitempty"`
+	// statusban: a ban of the same network committed right after the first
+	// database transaction of the Status call (concurrent caller)
+	Now2 int64  `json:"now2,omitempty"`
+	Obs2 string `json:"obs2,omitempty"`
 }
 
 type History struct {
@@ -175,6 +179,16 @@ func genHistory(r *rand.Rand, id int, nops int, timed bool) History {
 				reason = uint8(r.Intn(256))
 			}
 			h.Ops = append(h.Ops, Op{Kind: "ban", Addr: addr, Mask: mask, Raw: raw, Reason: reason, DurMs: dur})
+		case x < 41 && len(banned) > 0:
+			// a query racing with a fresh ban of the same network, often
+			// on a record that has lapsed but was not queried since
+			t := banned[r.Intn(len(banned))]
+			a2 := spell(r, t.ip)
+			if r.Intn(2) == 0 {
+				h.Ops = append(h.Ops, Op{Kind: "ban", Addr: a2, Mask: t.mask, Reason: 2, DurMs: -int64(1 + r.Intn(3000))})
+			}
+			h.Ops = append(h.Ops, Op{Kind: "statusban", Addr: spell(r, t.ip), Mask: t.mask, Reason: uint8(1 + r.Intn(5)), DurMs: int64(3600_000 + r.Intn(100000))})
+			h.Ops = append(h.Ops, Op{Kind: "status", Addr: spell(r, t.ip), Mask: t.mask})
 		case x < 45:
 			h.Ops = append(h.Ops, Op{Kind: "unban", Addr: addr, Mask: mask, Raw: raw})
 		case x < 90:
@@ -188,6 +202,31 @@ func genHistory(r *rand.Rand, id int, nops int, timed bool) History {
 		}
 	}
 	return h
+}
+
+// hookDB lets the harness run something right after the next database
+// transaction completes (a concurrent caller slipping in between two
+// transactions of one store call).
+type hookDB struct {
+	walletdb.DB
+	afterTx func()
+}
+
+func (d *hookDB) fire() {
+	if f := d.afterTx; f != nil {
+		d.afterTx = nil
+		f()
+	}
+}
+func (d *hookDB) View(f func(tx walletdb.ReadTx) error, reset func()) error {
+	err := d.DB.View(f, reset)
+	d.fire()
+	return err
+}
+func (d *hookDB) Update(f func(tx walletdb.ReadWriteTx) error, reset func()) error {
+	err := d.DB.Update(f, reset)
+	d.fire()
+	return err
 }
 
 func openDB(path string) walletdb.DB {
@@ -205,12 +244,13 @@ func openDB(path string) walletdb.DB {
 func runHistory(h *History, dir string) {
 	path := filepath.Join(dir, fmt.Sprintf("ban-%d.db", h.ID))
 	os.Remove(path)
-	db := openDB(path)
+	raw := openDB(path)
+	db := &hookDB{DB: raw}
 	store, err := banman.NewStore(db)
 	if err != nil {
 		panic(err)
 	}
-	defer func() { db.Close(); os.Remove(path) }()
+	defer func() { db.DB.Close(); os.Remove(path) }()
 
 	for i := range h.Ops {
 		op := &h.Ops[i]
@@ -219,8 +259,8 @@ func runHistory(h *History, dir string) {
 			time.Sleep(time.Duration(op.DurMs) * time.Millisecond)
 			continue
 		case "reopen":
-			db.Close()
-			db = openDB(path)
+			db.DB.Close()
+			db = &hookDB{DB: openDB(path)}
 			store, err = banman.NewStore(db)
 			if err != nil {
 				op.Obs = "err"
@@ -263,6 +303,17 @@ func runHistory(h *History, dir string) {
 				err = store.UnbanIPNet(ipNet)
 			case "status":
 				st, err = store.Status(ipNet)
+			case "statusban":
+				db.afterTx = func() {
+					op.Now2 = time.Now().UnixNano()
+					if e := store.BanIPNet(ipNet, banman.Reason(op.Reason), dur); e != nil {
+						op.Obs2 = "err"
+					} else {
+						op.Obs2 = "ok"
+					}
+				}
+				st, err = store.Status(ipNet)
+				db.afterTx = nil
 			}
 			t1 := time.Now().UnixNano()
 			// The code reads the clock somewhere in [t0,t1]; the
@@ -272,8 +323,9 @@ func runHistory(h *History, dir string) {
 			switch op.Kind {
 			case "ban":
 				amb = floorDiv(t0+int64(dur), 1e9) != floorDiv(t1+int64(dur), 1e9)
-			case "status":
-				amb = floorDiv(t0, 1e9) != floorDiv(t1, 1e9)
+			case "status", "statusban":
+				amb = floorDiv(t0, 1e9) != floorDiv(t1, 1e9) ||
+					floorDiv(t0+int64(dur), 1e9) != floorDiv(t1+int64(dur), 1e9)
 			}
 			if amb && try < 5 {
 				continue
@@ -281,7 +333,7 @@ func runHistory(h *History, dir string) {
 			op.Now = t0
 			if err != nil {
 				op.Obs = "err"
-			} else if op.Kind == "status" {
+			} else if op.Kind == "status" || op.Kind == "statusban" {
 				op.Obs = "status"
 				op.Banned = st.Banned
 				if st.Banned {
@@ -337,6 +389,20 @@ func caseTerm(h *History) (string, string) {
 			o = c.App("Unban", netTerm(op.IP, op.NMask))
 		case "status":
 			o = c.App("Status", netTerm(op.IP, op.NMask), c.Z(op.Now))
+		case "statusban":
+			// sequential reading: the status query, then the ban
+			items = append(items, c.Pair(c.App("Status", netTerm(op.IP, op.NMask), c.Z(op.Now)), obsTerm(op)))
+			sig = append(sig, "c")
+			if op.Obs2 == "" {
+				continue // the store call made no transaction the ban could follow
+			}
+			ob2 := "OOk"
+			if op.Obs2 == "err" {
+				ob2 = "OErr"
+			}
+			items = append(items, c.Pair(c.App("Ban", netTerm(op.IP, op.NMask), c.Z(int64(op.Reason)), c.Z(op.Now2), c.Z(op.DurMs*1000000)), ob2))
+			sig = append(sig, "b")
+			continue
 		case "reopen":
 			o = "Reopen"
 		}
